@@ -84,6 +84,8 @@ MCUcHistory == {Resp(200, AuthOk, <<>>, [doc |-> Doc(<<Entry("a", "ok", "2.0.0.0
                 Resp(200, AuthOk, X5, [doc |-> SmallDoc]), [cls |-> "transport"], Resp(200, AuthOk, <<>>, [garbage |-> "trunc"])}
 MCProg0 == {<<>>}
 MCProg2 == {<<>>, <<250, 750>>}
+MCProg3 == {<<>>, <<500>>, <<250, 750>>, <<0, 1000, 1000>>}
+MCUcInstall == {Resp(200, AuthOk, <<>>, [doc |-> Doc(<<Entry("a", "ok", "2.0.0.0", [id |-> "c9"])>>, D77)])}
 MCNoSrc == {}
 
 \* one JSON line per complete behaviour: the environment script and the predicted log
